@@ -201,11 +201,18 @@ type c07Part struct {
 	msg    []byte // what was really signed
 }
 
+// signer -1: padding — BLS: the id is only set in the bitfield and nothing is added to the aggregate point;
+// list schemes: an entry of random bytes
+const c07Pad = -1
+
 func (u *c07Univ) multi(parts []c07Part) (hotstuff.QuorumSignature, []c07Contrib) {
 	var contribs []c07Contrib
 	raw := make([][]byte, len(parts))
 	for i, p := range parts {
-		if p.signer == 0 {
+		if p.signer == c07Pad && u.scheme == crypto.NameBLS12 {
+			continue
+		}
+		if p.signer == 0 || p.signer == c07Pad {
 			b := make([]byte, 64)
 			_, _ = rand.Read(b)
 			if u.scheme == crypto.NameBLS12 { // a well-formed point that is nobody's signature
@@ -230,12 +237,15 @@ func (u *c07Univ) multi(parts []c07Part) (hotstuff.QuorumSignature, []c07Contrib
 		agg := g2.Zero()
 		var bf crypto.Bitfield
 		for i, p := range parts {
+			bf.Add(hotstuff.ID(p.label))
+			if p.signer == c07Pad {
+				continue
+			}
 			pt, err := g2.FromCompressed(raw[i])
 			if err != nil {
 				panic(err)
 			}
 			g2.Add(agg, agg, pt)
-			bf.Add(hotstuff.ID(p.label))
 		}
 		obj, err := crypto.RestoreBLS12AggregateSignature(g2.ToCompressed(agg), bf)
 		if err != nil {
@@ -296,6 +306,91 @@ func (u *c07Univ) pattern(kind string, msgOf, altOf func(i int) []byte) ([]c07Pa
 		for i := 1; i <= k; i++ {
 			ps = append(ps, c07Part{i, i, msgOf(i)})
 		}
+	}
+	if strings.HasPrefix(kind, "pad:") {
+		// "pad:<g>:<total>:<with>:<place>": g genuine member signers whose aggregate is exactly their sum, the
+		// participant set padded to <total> ids that contributed nothing (list schemes: random bytes for them)
+		//   with   above    non-member ids just above n        far  ids from 300
+		//          members  members that did not sign          mixed  non-signing members, then non-members
+		//   place  lo  the genuine signers are the lowest members (padding above them)
+		//          hi  the genuine signers are the highest members (member padding below them)
+		//          mid the genuine signers are the members just below member 4 and the padding starts at member 4
+		//              (the member whose proof of possession is bad in the bad-proof worlds)
+		f := strings.Split(kind, ":")
+		if len(f) != 5 {
+			return nil, false
+		}
+		g, total := 0, 0
+		_, e1 := fmt.Sscanf(f[1], "%d", &g)
+		_, e2 := fmt.Sscanf(f[2], "%d", &total)
+		if e1 != nil || e2 != nil || g < 1 || g > total || g > u.n {
+			return nil, false
+		}
+		var gen []int
+		switch f[4] {
+		case "lo":
+			for i := 1; i <= g; i++ {
+				gen = append(gen, i)
+			}
+		case "hi":
+			for i := u.n - g + 1; i <= u.n; i++ {
+				gen = append(gen, i)
+			}
+		case "mid":
+			for i := 4 - g; i <= 3; i++ {
+				if i < 1 {
+					return nil, false
+				}
+				gen = append(gen, i)
+			}
+		default:
+			return nil, false
+		}
+		used := map[int]bool{}
+		for _, i := range gen {
+			used[i] = true
+			ps = append(ps, c07Part{i, i, msgOf(i)})
+		}
+		var cand []int
+		members := func(from int) {
+			for i := from; i <= u.n; i++ {
+				if !used[i] {
+					cand = append(cand, i)
+				}
+			}
+			for i := 1; i < from; i++ {
+				if !used[i] {
+					cand = append(cand, i)
+				}
+			}
+		}
+		switch f[3] {
+		case "above":
+			for i := u.n + 1; i <= u.n+total; i++ {
+				cand = append(cand, i)
+			}
+		case "far":
+			for i := 300; i < 300+total; i++ {
+				cand = append(cand, i)
+			}
+		case "members":
+			members(1)
+		case "mixed":
+			members(4)
+			for i := u.n + 1; i <= u.n+total; i++ {
+				cand = append(cand, i)
+			}
+		default:
+			return nil, false
+		}
+		for _, id := range cand {
+			if len(ps) >= total {
+				break
+			}
+			ps = append(ps, c07Part{id, c07Pad, nil})
+		}
+		sort.Slice(ps, func(a, b int) bool { return ps[a].label < ps[b].label })
+		return ps, len(ps) == total
 	}
 	if strings.HasPrefix(kind, "jp:") {
 		// "jp:<g>:<layout>:<total>:<junk>": <total> entries labelled with the distinct members 1..total, g of them
@@ -1372,6 +1467,8 @@ func (w *c07World) culprit() string {
 		switch {
 		case strings.Contains(k, "relabel") || strings.Contains(k, "genesis"):
 			set["stated-view-not-checked"] = true
+		case strings.Contains(k, "pad:"):
+			set["padded-participant-set-counted"] = true
 		case strings.Contains(k, "jp:"):
 			set["junk-signature-entries-counted"] = true
 		case strings.Contains(k, "dup"), strings.Contains(k, "mixrep"), strings.Contains(k, "ownrep"):
@@ -2431,6 +2528,79 @@ func (r *c07Runner) boundaryJunk() {
 	r.o.v.CountN("junk-position:"+r.u.scheme+fmt.Sprintf("/n%d", n), cnt)
 }
 
+// boundaryPad: certificates signed by g < q members ALONE (the aggregate point is exactly the sum of their
+// signatures) whose participant set is padded to q or to n ids with ids that contributed nothing: non-member ids
+// just above n, far ids, members that did not sign — above and below the genuine ids.  The participant count then
+// looks like a quorum; whatever the verification does with the ids it cannot resolve, fewer than q members signed.
+// Run in the bls12 worlds (with and without a member whose proof of possession is bad); for the list schemes the
+// padding entries are random bytes.
+func (r *c07Runner) boundaryPad() {
+	q, n := hotstuff.QuorumSize(r.u.nFull), r.u.nFull
+	var kinds []string
+	for _, g := range []int{1, q - 1} {
+		if g < 1 || g >= q {
+			continue
+		}
+		for _, total := range []int{q, n} {
+			for _, with := range []string{"above", "far", "members", "mixed"} {
+				for _, place := range []string{"lo", "hi", "mid"} {
+					if place == "mid" && (g > 3 || (with != "mixed" && with != "above")) {
+						continue
+					}
+					if with == "mixed" && place == "hi" {
+						continue
+					}
+					kinds = append(kinds, fmt.Sprintf("pad:%d:%d:%s:%s", g, total, with, place))
+				}
+			}
+		}
+	}
+	opts := []c07Opt{{}}
+	if r.u.scheme == crypto.NameBLS12 {
+		opts = append(opts, c07Opt{badPop: "other-key"}, c07Opt{badPop: "missing", cache: 16}, c07Opt{badPop: "rogue"})
+	}
+	gqc := &c07QCSpec{Kind: "valid", Block: "G"}
+	cnt := 0
+	for _, opt := range opts {
+		w := r.freshO(nil, opt)
+		for i, k := range kinds {
+			var sis []c07SISpec
+			sis = append(sis, c07SISpec{TC: &c07TCSpec{Kind: k, View: 1}})
+			if r.agg {
+				sis = append(sis, c07SISpec{Agg: &c07AggSpec{Kind: k, View: 1}}, c07SISpec{Agg: &c07AggSpec{Kind: "valid", View: 1, High: &c07QCSpec{Kind: k, Block: "b1"}}})
+			} else {
+				sis = append(sis, c07SISpec{QC: &c07QCSpec{Kind: k, Block: "b1"}}, c07SISpec{QC: &c07QCSpec{Kind: k, Block: "b3"}, TC: &c07TCSpec{Kind: "valid", View: 0}})
+			}
+			for j, si := range sis {
+				si := si
+				st := c07Stim{Op: "newview", SI: &si}
+				switch (i + j) % 6 {
+				case 1:
+					st.Op = "adv"
+				case 3:
+					if si.QC == nil {
+						si.QC = gqc
+					}
+					st = c07Stim{Op: "timeout", View: 1, From: 2, Sig: "ok", SI: &si}
+				case 5:
+					if si.QC != nil && si.TC == nil {
+						st = c07Stim{Op: "propose", View: 2, From: 2, Parent: si.QC.Block, SI: &si}
+					}
+				}
+				before := w.obs()
+				w.held = map[c07Contrib]bool{}
+				w.hist = nil
+				after := w.do(r.o, st)
+				cnt++
+				if after != before {
+					w = r.freshO(nil, opt)
+				}
+			}
+		}
+	}
+	r.o.v.CountN("padded-participants:"+r.u.scheme+fmt.Sprintf("/n%d", n), cnt)
+}
+
 func (r *c07Runner) leaderOf(opt c07Opt, v uint64) hotstuff.ID {
 	if opt.rot == "rr" {
 		return leaderrotation.ChooseRoundRobin(hotstuff.View(v), r.u.nFull)
@@ -2508,6 +2678,7 @@ func TestVerifC07(t *testing.T) {
 			r.boundaryBLS(search)
 			r.boundaryAgg()
 			r.boundaryJunk()
+			r.boundaryPad()
 			r.blsPop = true
 			r.random(c07Size(v, search, 6, 120))
 		}()
@@ -2539,6 +2710,7 @@ func TestVerifC07(t *testing.T) {
 					return
 				}
 				r.boundaryJunk()
+				r.boundaryPad()
 				r.boundaryAgg()
 			}()
 		}
@@ -2567,6 +2739,9 @@ func TestVerifC07(t *testing.T) {
 					if leader == 2 {
 						r.boundaryAgg()
 						r.boundaryJunk()
+						if !agg {
+							r.boundaryPad()
+						}
 					}
 					if leader == 2 {
 						r.exhaustive(v.Thorough() && !search)
